@@ -20,82 +20,137 @@ META = {
 
 
 def rule_to_error(ctx):
+    """Callee side, cell-wise over (kind of exception, its args, its kwargs, traceback forwarding): the ERROR carries the right URI, the
+    exception's args as a list and its kwargs (+ the traceback when forwarding is on)."""
+    from ..core.tiny import Tiny, Sym
+    import itertools
     ctx.rule("C18.1-exception-to-error")
-    an = get_analysis(ctx)
     fn = ctx.program.func(f"{BASESESSION}._message_from_exception")
     ctx.analysed(fn)
-    g, mf, res = an.get(fn)
-    errs = [(n, norm.text(n.ast.value)) for n in g.stmt_nodes() if n.kind == "stmt" and isinstance(n.ast, ast.Assign) and norm.text(n.ast.targets[0]) == "error"]
-    ctx.ob("three ways to choose the error URI", len(errs) == 3, f"{len(errs)} assignments to `error`", fn.loc())
-    for n, v in errs:
-        f = mf.at(n)
-        if ("isinst", "exc", "exception.ApplicationError", True) in f:
-            ctx.ob("ApplicationError keeps its own URI", "exc.error" in v, f"error = {v}", fn.loc(n.ast))
-        elif ("in", "exc.__class__", ("e", "self._ecls_to_uri_pat"), True) in f:
-            ctx.ob("registered class maps to the URI of its first pattern", v == "self._ecls_to_uri_pat[exc.__class__][0]._uri", f"error = {v}", fn.loc(n.ast))
-        else:
-            ok = ("isinst", "exc", "exception.ApplicationError", False) in f and ("in", "exc.__class__", ("e", "self._ecls_to_uri_pat"), False) in f
-            ctx.ob("unregistered class maps to wamp.error.runtime_error", ok and v.strip("'\"") == "wamp.error.runtime_error", f"error = {v}", fn.loc(n.ast))
-    a = [norm.text(n.ast.value) for n in g.stmt_nodes() if n.kind == "stmt" and isinstance(n.ast, ast.Assign) and norm.text(n.ast.targets[0]) == "args"]
-    k = [norm.text(n.ast.value) for n in g.stmt_nodes() if n.kind == "stmt" and isinstance(n.ast, ast.Assign) and norm.text(n.ast.targets[0]) == "kwargs"]
-    ctx.ob("args = list(exc.args)", sorted(a) == sorted(["None", "list(exc.args)"]), f"{a}", fn.loc())
-    ctx.ob("kwargs = exc.kwargs (+ optional traceback)", "exc.kwargs" in k and all(x in ("None", "exc.kwargs", "{'traceback': tb}") for x in k), f"{k}", fn.loc())
-    ctors = [c for c in calls_in(fn.node) if call_name(c) == "message.Error"]
-    ctx.require(len(ctors) == 2, "_message_from_exception: expected clear and encoded ERROR constructions")
-    for c in ctors:
-        ok = [norm.text(x) for x in c.args[:3]] == ["request_type", "request", "error"]
-        ctx.ob(f"ERROR carries (request_type, request, error) [{'encoded' if kwarg(c, 'payload') is not None else 'clear'}]", ok, norm.text(c)[:60], fn.loc(c))
-        if kwarg(c, "payload") is None:
-            ctx.ob("clear ERROR carries args and kwargs", [norm.text(x) for x in c.args[3:5]] == ["args", "kwargs"], norm.text(c)[:70], fn.loc(c))
-    enc = [c for c in calls_in(fn.node) if norm.text(c.func) == "self._payload_codec.encode"]
-    ctx.ob("encoded ERROR encrypts (error, args, kwargs)", len(enc) == 1 and [norm.text(x) for x in enc[0].args[1:]] == ["error", "args", "kwargs"], "encode arguments changed", fn.loc())
+    body = [x for x in fn.node.body if not (isinstance(x, ast.Expr) and isinstance(x.value, ast.Constant))]
+    prm = fn.params()
+    probs = []
+    cells = 0
+    try:
+        for kind, args, kw, tb in itertools.product(("app", "registered", "registered-subclass", "unregistered", "unregistered-subclass"),
+                                                    ((), (Sym("a0"),), (Sym("a0"), Sym("a1"))), (None, {}, {"k": Sym("v")}), (None, ["frame"])):
+            cells += 1
+            cls = Sym(f"class-{kind}")
+            base = Sym("registered-base-class")
+            mro = [cls] + ([base] if kind.endswith("subclass") else [])
+            attrs = {"args": list(args), "__class__": cls}
+            if kw is not None or kind == "app":
+                attrs["kwargs"] = dict(kw or {})
+            if kind == "app":
+                attrs["error"] = "com.app.error"
+            exc = Sym("exception", **attrs)
+            kw_before = dict(attrs.get("kwargs", {}))
+            made = []
+
+            def default(f_, a_, k_=None):
+                if f_ == "hasattr":
+                    return isinstance(a_[0], Sym) and a_[1] in a_[0].attrs
+                if f_ == "isinstance":
+                    if a_[0] is exc and isinstance(a_[1], Sym) and a_[1].name == "ApplicationError":
+                        return kind == "app"
+                    return a_[0] is exc and a_[1] in mro
+                if f_ == "type":
+                    return "str" if isinstance(a_[0], str) else (cls if a_[0] is exc else "other")
+                if f_ == "message.Error":
+                    m = Sym("ERROR", args=list(a_), kwargs=dict(k_ or {}))
+                    made.append(m)
+                    return m
+                return Sym(f"<{f_}>")
+            # registration order: a base class first, then (when registered) the class itself
+            table = {}
+            if kind.endswith("subclass"):
+                table[base] = [Sym("pattern", _uri="com.base.error")]
+            if kind.startswith("registered"):
+                table[cls] = [Sym("pattern", _uri="com.registered.error")]
+            table[Sym("other-class")] = [Sym("pattern", _uri="com.other")]
+            env = {prm[1]: 68, prm[2]: 4711, prm[3]: exc, prm[4]: tb, "self": Sym("session"), "self._ecls_to_uri_pat": table, "self._payload_codec": None, "str": "str",
+                   "exception.ApplicationError": Sym("ApplicationError")}
+            if len(prm) > 5:
+                env[prm[5]] = None
+            t = Tiny(env, default_call=default)
+            r = t.run(body)
+            cell = f"{kind} exception, args {list(args)}, kwargs {kw}, traceback {'on' if tb else 'off'}"
+            if r[0] != "return" or not (isinstance(r[1], Sym) and r[1].name == "ERROR"):
+                probs.append(f"{cell}: no ERROR built ({r[0]} {r[1]})")
+                continue
+            a = r[1].attrs["args"] + [None] * 5
+            want_uri = {"app": "com.app.error", "registered": "com.registered.error", "registered-subclass": "com.registered.error",
+                        "unregistered": "wamp.error.runtime_error", "unregistered-subclass": "wamp.error.runtime_error"}[kind]
+            if a[0] != 68 or a[1] != 4711:
+                probs.append(f"{cell}: ERROR is for ({a[0]}, {a[1]}), expected the given request type and id")
+            if a[2] != want_uri:
+                probs.append(f"{cell}: error URI {a[2]!r}, expected {want_uri!r}")
+            if not (isinstance(a[3], list) and len(a[3]) == len(args) and all(x is y for x, y in zip(a[3], args))):
+                probs.append(f"{cell}: ERROR args {a[3]}, expected {list(args)}")
+            want_kw = dict(kw_before)
+            if tb:
+                want_kw["traceback"] = tb
+            got_kw = a[4] if a[4] is not None else {}
+            if got_kw != want_kw:
+                probs.append(f"{cell}: ERROR kwargs {a[4]}, expected {want_kw or None}")
+        ctx.ob(f"_message_from_exception: URI by the three-way rule, args = list(exc.args), kwargs = exc.kwargs (+ traceback when forwarded) [{cells} cells]",
+               not probs, "; ".join(sorted(set(probs))[:2]), fn.loc())
+    except AnalysisError as e:
+        raise AnalysisError(f"[C18.1-exception-to-error] _message_from_exception outside the modelled subset: {e}")
 
 
 def rule_from_error(ctx):
+    """Caller side, cell-wise over (URI registered or not, args, kwargs, what the registered constructor does): an exception object is always
+    returned -- the registered class when its constructor accepts the payload, else the generic ApplicationError with URI, args, kwargs."""
+    from ..core.tiny import Tiny, Sym, TinyRaise
+    import itertools
     ctx.rule("C18.2-error-to-exception-never-lost")
-    an = get_analysis(ctx)
     fn = ctx.program.func(f"{BASESESSION}._exception_from_message")
     ctx.analysed(fn)
-    g, mf, res = an.get(fn)
-    ctor = [(n, c) for n in g.stmt_nodes() for c in node_calls(n) if isinstance(c.func, ast.Name) and c.func.id == "ecls"]
-    ctx.require(len(ctor) == 4, f"expected 4 ecls(...) constructions, found {len(ctor)}")
-    for n, c in ctor:
-        hs = [m for m, lab in n.succ if lab and lab[0] == "exc"]
-        ok = bool(hs) and any(h.ast.type is not None and norm.text(h.ast.type) in ("Exception", "BaseException") or h.ast.type is None for h in hs)
-        ctx.ob(f"`{stmt_key(c)}` is inside try/except Exception", ok, "a failing exception constructor would lose the error", fn.loc(c))
-        for h in hs:
-            bad = [x for b in h.ast.body for x in ast.walk(b) if isinstance(x, (ast.Raise, ast.Return))]
-            inner_ok = all(any(x is y for t in ast.walk(h.ast) if isinstance(t, ast.Try) for hh in t.handlers for y in ast.walk(hh)) or
-                           any(x is y for t in ast.walk(h.ast) if isinstance(t, ast.Try) for b2 in t.body for y in ast.walk(b2)) for x in bad)
-            ctx.ob(f"handler of `{stmt_key(c)}` neither re-raises nor returns", not bad or inner_ok, "handler leaves the function", fn.loc(h.ast))
-        # unpacking guarded
-        for a in c.args:
-            if isinstance(a, ast.Starred):
-                ctx.ob(f"`{stmt_key(c)}`: *msg.args only when set", ("truth", "msg.args", None, True) in mf.at(n), "unguarded *msg.args", fn.loc(c))
-        for kw in c.keywords:
-            if kw.arg is None:
-                ctx.ob(f"`{stmt_key(c)}`: **msg.kwargs only when set", ("truth", "msg.kwargs", None, True) in mf.at(n), "unguarded **msg.kwargs", fn.loc(c))
-    look = [n for n in g.stmt_nodes() if n.kind == "stmt" and isinstance(n.ast, ast.Assign) and norm.text(n.ast.targets[0]) == "ecls"]
-    ok = len(look) == 1 and norm.text(look[0].ast.value) == "self._uri_to_ecls[msg.error]" and ("in", "msg.error", ("e", "self._uri_to_ecls"), True) in mf.at(look[0])
-    ctx.ob("registered class looked up by the message's error URI", ok, "lookup changed", fn.loc())
-    gen = [(n, c) for n in g.stmt_nodes() for c in node_calls(n) if call_name(c) == "exception.ApplicationError"]
-    ctx.ob("generic fallback has all four args/kwargs shapes", len(gen) == 4, f"{len(gen)} shapes", fn.loc())
-    for n, c in gen:
-        f = mf.at(n)
-        ctx.ob(f"fallback `{stmt_key(c)[:60]}` only when no exception object exists yet", ("truth", "exc", None, False) in f, "fallback overrides a constructed exception", fn.loc(c))
-        ctx.ob(f"fallback `{stmt_key(c)[:60]}` carries the error URI first", c.args and norm.text(c.args[0]) == "msg.error", "URI not passed", fn.loc(c))
-        star = any(isinstance(a, ast.Starred) for a in c.args)
-        dstar = any(kw.arg is None for kw in c.keywords)
-        a_known = norm.is_truthy_known(f, "msg.args")
-        k_known = norm.is_truthy_known(f, "msg.kwargs")
-        ctx.ob(f"fallback `{stmt_key(c)[:60]}` passes args iff present and kwargs iff present", a_known is star and k_known is dstar,
-               f"*args={star} under msg.args={a_known}; **kwargs={dstar} under msg.kwargs={k_known}", fn.loc(c))
-    rets = [n for n in g.stmt_nodes() if n.kind == "stmt" and isinstance(n.ast, ast.Return)]
-    ok = bool(rets) and all(n.ast.value is not None and norm.text(n.ast.value) in ("exc", "enc_err") for n in rets) and not g.path_exists(g.entry, g.exit, avoid=lambda x: x in rets)
-    ctx.ob("every path returns an exception object", ok, "a path falls off the end or returns something else", fn.loc())
-    final = [n for n in rets if norm.text(n.ast.value) == "exc"]
-    fb = [n for n in g.stmt_nodes() if n.kind == "test" and norm.atoms(n.ast, True, res) == [("truth", "exc", None, False)]]
-    ctx.ob("the fallback test dominates the final return", len(final) == 1 and len(fb) == 1 and g.always_preceded_by(final[0], lambda x: x is fb[0]), "fallback can be skipped", fn.loc())
+    body = [x for x in fn.node.body if not (isinstance(x, ast.Expr) and isinstance(x.value, ast.Constant))]
+    probs = []
+    cells = 0
+    try:
+        for registered, args, kw, ctor in itertools.product((True, False), (None, [], [Sym("a0")]), (None, {}, {"k": Sym("v")}), ("ok", "TypeError", "ValueError", "KeyError", "RuntimeError")):
+            if not registered and ctor != "ok":
+                continue
+            cells += 1
+            built = []
+
+            def construct(*a, **k):
+                if ctor != "ok":
+                    raise TinyRaise(ctor)
+                o = Sym("user-exception", args=list(a), kwargs=dict(k))
+                built.append(o)
+                return o
+            ecls = Sym("registered-class", methods={"__call__": construct})
+
+            def default(f_, a_, k_=None):
+                if f_ == "exception.ApplicationError":
+                    return Sym("ApplicationError", args=list(a_), kwargs=dict(k_ or {}))
+                return Sym(f"<{f_}>")
+            msg = fn.params()[1]
+            env = {f"{msg}.enc_algo": None, f"{msg}.error": "com.err", f"{msg}.args": args, f"{msg}.kwargs": kw, "self": Sym("session"),
+                   "self._uri_to_ecls": ({"com.err": ecls} if registered else {"com.other": ecls}), "self._payload_codec": None,
+                   f"{msg}.callee": None, f"{msg}.callee_authid": None, f"{msg}.callee_authrole": None, f"{msg}.forward_for": None}
+            t = Tiny(env, default_call=default)
+            r = t.run(body)
+            cell = f"error URI {'registered' if registered else 'not registered'}, args {args}, kwargs {kw}, constructor {'accepts' if ctor == 'ok' else 'raises ' + ctor}"
+            if r[0] != "return" or not isinstance(r[1], Sym):
+                probs.append(f"{cell}: no exception object is returned ({r[0]} {r[1]}): the remote error is lost, the pending call never fails")
+                continue
+            o = r[1]
+            wa, wk = list(args or []), dict(kw or {})
+            if registered and ctor == "ok":
+                if not (o.name == "user-exception" and o.attrs["args"] == wa and o.attrs["kwargs"] == wk):
+                    probs.append(f"{cell}: returns {o} with {o.attrs.get('args')}, {o.attrs.get('kwargs')}, expected the registered class built from the payload")
+            else:
+                if not (o.name == "ApplicationError" and o.attrs["args"] == ["com.err"] + wa and o.attrs["kwargs"] == wk):
+                    probs.append(f"{cell}: returns {o} with {o.attrs.get('args')}, {o.attrs.get('kwargs')}, expected ApplicationError('com.err', *args, **kwargs)")
+        ctx.ob(f"_exception_from_message: always returns an exception -- the registered class if its constructor takes the payload, else ApplicationError(URI, *args, **kwargs) "
+               f"[{cells} cells]", not probs, "; ".join(sorted(set(probs))[:2]), fn.loc())
+    except AnalysisError as e:
+        raise AnalysisError(f"[C18.2-error-to-exception-never-lost] _exception_from_message outside the modelled subset: {e}")
 
 
 def rule_registries(ctx):
